@@ -106,7 +106,9 @@ func (c *c11Check) Init(_ *config.Map) error { return nil }
 func (c *c11Check) CheckStateForMsg(context.Context, *module.MsgMetadata) (module.CheckState, error) {
 	return &c11CheckState{t: c.t}, nil
 }
-func (s *c11CheckState) CheckConnection(context.Context) module.CheckResult { return module.CheckResult{} }
+func (s *c11CheckState) CheckConnection(context.Context) module.CheckResult {
+	return module.CheckResult{}
+}
 func (s *c11CheckState) CheckSender(_ context.Context, mailFrom string) module.CheckResult {
 	s.t.mu.Lock()
 	defer s.t.mu.Unlock()
@@ -117,7 +119,9 @@ func (s *c11CheckState) CheckSender(_ context.Context, mailFrom string) module.C
 	}
 	return module.CheckResult{}
 }
-func (s *c11CheckState) CheckRcpt(context.Context, string) module.CheckResult { return module.CheckResult{} }
+func (s *c11CheckState) CheckRcpt(context.Context, string) module.CheckResult {
+	return module.CheckResult{}
+}
 func (s *c11CheckState) CheckBody(context.Context, textproto.Header, buffer.Buffer) module.CheckResult {
 	return module.CheckResult{}
 }
